@@ -375,38 +375,107 @@ def extract_nondets(trace):
 # ----------------------------------------------------------------------------- native replay
 _native_lock = threading.Lock()
 
-def build_native(job, tier):
-    """g++ / ASan+UBSan build of the harness against the REAL sources (no translation involved)."""
+def build_native(job, tier, sanitize=True):
+    """g++ build of the harness against the REAL sources (no translation involved); ASan+UBSan for counterexample replay,
+    plain -O1 for translation validation. Unit objects are cached per source-tree hash and shared by all jobs."""
     th = tree_hash()
     cachedir = os.path.join(WORK, "cache-" + th)
     cfg = gen_config(os.path.join(cachedir, "cfg"))
     hsrc = os.path.join(VERIF, "harness", job["harness"])
     os.makedirs(cachedir, exist_ok=True)
-    key = sha(open(hsrc, "rb").read().decode() + repr(sorted(job.get("defines", []))) + repr(job.get("units")) + run_pregen(job, cachedir, cfg) +
-              (repr(job.get("native_flags")) if job.get("native_flags") else ""))
+    san = ["-fsanitize=address,undefined", "-fno-sanitize-recover=undefined"] if sanitize else []
+    fl = ["-std=c++17", "-O1", "-g", "-fno-omit-frame-pointer"] + san + ["-DNDEBUG", "-DOVM_VERIF", "-DV_NATIVE", "-w"] + list(job.get("native_flags", []))
+    key = sha(open(hsrc, "rb").read().decode() + repr(sorted(job.get("defines", []))) + repr(job.get("units")) + run_pregen(job, cachedir, cfg) + repr(fl))
     nd = os.path.join(cachedir, "native-%s-%s" % (job["name"], key))
+    od = os.path.join(cachedir, "nobj-" + sha(repr(fl)))
     exe = os.path.join(nd, "replay")
-    with _native_lock:
+    inc = ["-I" + SRC, "-I" + cfg, "-I" + os.path.join(VERIF, "harness")]
+    def cc_unit(u):
+        o = os.path.join(od, u.replace("/", "__") + ".o")
+        with _build_lock:
+            lk = _unit_locks.setdefault(o, threading.Lock())
+        with lk:
+            if not os.path.exists(o):
+                src = os.path.join(SRC, "OpenVolumeMesh", u)
+                r = run(["g++"] + fl + inc + ["-c", src, "-o", o + ".tmp.o"], cwd=os.path.dirname(src))
+                if r.returncode != 0:
+                    raise ToolError("native compile failed: " + r.stderr[-3000:])
+                os.replace(o + ".tmp.o", o)
+        return o
+    with _build_lock:
+        lk = _unit_locks.setdefault(exe, threading.Lock())
+    with lk:
         if os.path.exists(exe):
             return exe
-        os.makedirs(nd, exist_ok=True)
-        objs = []
-        inc = ["-I" + SRC, "-I" + cfg, "-I" + os.path.join(VERIF, "harness")]
-        fl = ["-std=c++17", "-O1", "-g", "-fno-omit-frame-pointer", "-fsanitize=address,undefined", "-fno-sanitize-recover=undefined",
-              "-DNDEBUG", "-DOVM_VERIF", "-DV_NATIVE", "-w"] + list(job.get("native_flags", []))   # optional job key: extra g++ flags of the replay build
-        srcs = [os.path.join(SRC, "OpenVolumeMesh", u) for u in job.get("units", [])] + [hsrc, os.path.join(VERIF, "rt", "rt_native.cpp")]
-        def cc(s):
-            o = os.path.join(nd, sha(s) + ".o")
-            r = run(["g++"] + fl + inc + ["-D" + d for d in job.get("defines", [])] + ["-c", s, "-o", o], cwd=os.path.dirname(s))
+        os.makedirs(nd, exist_ok=True); os.makedirs(od, exist_ok=True)
+        with cf.ThreadPoolExecutor(max_workers=8) as ex:
+            objs = list(ex.map(cc_unit, job.get("units", [])))
+        for s_ in (hsrc, os.path.join(VERIF, "rt", "rt_native.cpp")):
+            o = os.path.join(nd, sha(s_) + ".o")
+            r = run(["g++"] + fl + inc + ["-D" + d for d in job.get("defines", [])] + ["-c", s_, "-o", o], cwd=os.path.dirname(s_))
             if r.returncode != 0:
                 raise ToolError("native compile failed: " + r.stderr[-3000:])
-            return o
-        with cf.ThreadPoolExecutor(max_workers=8) as ex:
-            objs = list(ex.map(cc, srcs))
-        r = run(["g++", "-fsanitize=address,undefined", "-rdynamic"] + objs + ["-ldl", "-o", exe])
+            objs.append(o)
+        r = run(["g++"] + san + ["-rdynamic"] + objs + ["-ldl", "-o", exe + ".tmp"])
         if r.returncode != 0:
             raise ToolError("native link failed: " + r.stderr[-3000:])
+        os.replace(exe + ".tmp", exe)
     return exe
+
+def build_gen_native(job, jd, entry):
+    """gcc build of the GENERATED C (the translator's output) with the native runtime."""
+    exe = os.path.join(jd, "gen_native_" + entry)
+    with _build_lock:
+        lk = _unit_locks.setdefault(exe, threading.Lock())
+    with lk:
+        if os.path.exists(exe):
+            return exe
+        defs = ["-DV_NATIVE", "-DV_ENTRY_FN=" + entry] + (["-DV_EH"] if job.get("eh") else [])
+        r = run(["gcc", "-O0", "-w"] + defs + ["-I", os.path.join(VERIF, "rt"), os.path.join(jd, "job.c"), os.path.join(VERIF, "rt", "rt_gen_native.c"),
+                 "-lstdc++", "-lm", "-o", exe + ".tmp"])
+        if r.returncode != 0:
+            raise ToolError("gcc on generated C failed: " + r.stderr[-2000:])
+        os.replace(exe + ".tmp", exe)
+    return exe
+
+def _norm_log(out):
+    keep = []
+    for l in out.splitlines():
+        if l.startswith(("ASSERT-OK", "ASSERT-FAIL", "WITNESS", "ASSUME-FALSE", "UNCAUGHT", "DONE")):
+            keep.append(re.sub(r"\s+$", "", l))
+    return keep
+
+def translation_validate(job, jd, entry, params, seed, nvec):
+    """Serval-style safeguard: the same value vectors through (a) the harness compiled by g++ against the real sources and
+    (b) the translator's C compiled by gcc; the recorded (assertion, outcome) traces must be identical."""
+    import random
+    rnd = random.Random(seed * 7919 + hash(job["name"] + entry) % 100003)
+    exe_real = build_native(job, "quick", sanitize=False)
+    exe_gen = build_gen_native(job, jd, entry)
+    res = dict(programs=0, disagreements=[], samples=[])
+    for k in range(nvec):
+        if k == 0: vals = [0] * 48
+        elif k == 1: vals = [1] * 48
+        else: vals = [rnd.choice([0, 1, 2, 3, 4, 5, 6, 7, rnd.randrange(0, 12), rnd.randrange(0, 1 << 32)]) for _ in range(48)]
+        a = native_run(exe_real, entry, params, vals, timeout=120)
+        env = dict(os.environ); env["V_VALUES"] = ",".join(str(v) for v in vals)
+        for kk, vv in params.items(): env["V_PARAM%d" % kk] = str(vv)
+        try:
+            b = subprocess.run([exe_gen], stdout=subprocess.PIPE, stderr=subprocess.PIPE, text=True, env=env, timeout=120)
+            bout, brc = b.stdout, b.returncode
+        except subprocess.TimeoutExpired:
+            bout, brc = "TIMEOUT", -999
+        la, lb = _norm_log(a["out"]), _norm_log(bout)
+        res["programs"] += 1
+        early = any(l.startswith(("ASSUME-FALSE", "UNCAUGHT")) for l in la + lb) or a["rc"] not in (0, 1) or brc not in (0, 1)
+        ca = [l for l in la if l.startswith(("ASSERT", "WITNESS"))]; cb = [l for l in lb if l.startswith(("ASSERT", "WITNESS"))]
+        if early:   # a path ended by assume(false) / a throw in a job without exception modelling: compare the common prefix
+            n = min(len(ca), len(cb)); ca, cb = ca[:n], cb[:n]
+        if ca != cb:
+            res["disagreements"].append(dict(values=vals[:16], real=la[-3:], generated=lb[-3:], real_rc=a["rc"], gen_rc=brc))
+        if len(res["samples"]) < 2:
+            res["samples"].append(dict(values=vals[:12], trace_len=len(la), last=la[-1:] ))
+    return res
 
 def native_run(exe, entry, params, vals, timeout=60):
     env = dict(os.environ)
@@ -606,8 +675,29 @@ def check_property(prop_id, tier, spec, seed):
             for params in (plist or [{}]):
                 tasks.append((j, entry, dict(params), jd))
     violations = []; known_hits = []; not_covered = []
+    tv_total = dict(programs=0, disagreements=[], samples=[], jobs=0)
+    tv_tasks = []
+    if os.environ.get("OVM_NO_TV") != "1":
+        seen_jobs = set()
+        for (j, e, p, jd) in tasks:
+            if j["name"] in seen_jobs or j.get("no_tv"): continue
+            seen_jobs.add(j["name"]); tv_tasks.append((j, e, p, jd))
+        if tier == "quick": tv_tasks = tv_tasks[:2]
     with cf.ThreadPoolExecutor(max_workers=NCPU) as ex:
+        tv_futs = {ex.submit(translation_validate, j, jd, e, p, seed, 4 if tier == "quick" else 12): (j, e, p) for (j, e, p, jd) in tv_tasks}
         futs = {ex.submit(run_shard, j, tier, e, p, jd): (j, e, p) for (j, e, p, jd) in tasks}
+        for f in cf.as_completed(tv_futs):
+            j, e, p = tv_futs[f]
+            try:
+                r = f.result()
+            except Exception as ex_:
+                tool_errors.append("%s/%s: translation validation could not run: %s" % (j["name"], e, str(ex_)[:500])); continue
+            tv_total["programs"] += r["programs"]; tv_total["jobs"] += 1
+            tv_total["samples"] += [dict(job=j["name"], entry=e, **x) for x in r["samples"][:1]]
+            for d in r["disagreements"]:
+                tv_total["disagreements"].append(dict(job=j["name"], entry=e, params=p, **d))
+                tool_errors.append("%s/%s: TRANSLATION-MISMATCH real sources vs generated C on values %s: real=%s generated=%s" % (j["name"], e, d["values"], d["real"], d["generated"]))
+            log("  [%s] translation validation %s/%s: %d vectors, %d disagreements" % (prop_id, j["name"], e, r["programs"], len(r["disagreements"])))
         for f in cf.as_completed(futs):
             j, e, p = futs[f]
             try:
@@ -702,6 +792,8 @@ def check_property(prop_id, tier, spec, seed):
                   solver_time_s=round(sum((s.get("solver_s") or 0) for s in ok), 2),
                   symex_time_s=round(sum((s.get("symex_s") or 0) for s in ok), 2),
                   max_rss_mb=max([s.get("rss_mb") or 0 for s in shards] + [0]),
+                  translation_validation=dict(programs=tv_total["programs"], jobs=tv_total["jobs"], disagreements=len(tv_total["disagreements"]), samples=tv_total["samples"][:3],
+                                              what="same nondet value vectors through the harness built by g++ against the real sources and through the translator's C built by gcc; (assertion, outcome) traces compared"),
                   known_findings_hit=[k.get("what", "") for (k, s, d) in known_hits],
                   tool_errors=tool_errors[:20],
                   source_tree_hash=tree_hash(),
@@ -755,6 +847,7 @@ def main():
     ap.add_argument("--replay")
     ap.add_argument("--job", help="only jobs whose name matches this regex")
     ap.add_argument("--no-evidence", action="store_true")
+    ap.add_argument("--max-shards", type=int, default=0, help="development: only the first N shards of every job")
     a = ap.parse_args()
     sys.path.insert(0, VERIF)
     if a.replay:
@@ -764,6 +857,14 @@ def main():
     spec = specs.PROPS[a.prop]
     if a.job:
         spec = dict(spec); spec["jobs"] = [j for j in spec["jobs"] if re.search(a.job, j["name"])]
+    if a.max_shards:
+        spec = dict(spec); js = []
+        for j in spec["jobs"]:
+            j = dict(j); sh = j.get("shards")
+            if isinstance(sh, dict): j["shards"] = {k: v[:a.max_shards] for k, v in sh.items()}
+            elif isinstance(sh, list): j["shards"] = sh[:a.max_shards]
+            js.append(j)
+        spec["jobs"] = js
     os.makedirs(WORK, exist_ok=True)
     # drop caches of other source trees (disk hygiene) -- only stale ones, another check may still be using a recent one
     for d in os.listdir(WORK):
